@@ -4,10 +4,13 @@ import TracklibVerif.Lemmas.SimplifyVwOrd
 import Mathlib.Analysis.Real.Sqrt
 /-! # C16 — simplification keeps the end points, only drops fixes, and honours its tolerance
 
-Property theorems only (helper lemmas: `Lemmas/Simplify.lean`, scalar-independent, and
-`Lemmas/SimplifyGeom.lean`, ordered field). The model is `Model/Simplify.lean`: `douglas_peucker`,
-`visvalingam` (algo/simplification.py), `distance_to_segment`, `triangle_area`, `aire_visval`
-(util/geometry.py), `Operator.ARGMIN` — as the code is after ec611a5 and 1a5eeec.
+Property theorems only (helper lemmas: `Lemmas/Simplify.lean`, `Lemmas/SimplifyVw.lean`, `Lemmas/SimplifyTrack.lean`,
+scalar-independent, and `Lemmas/SimplifyGeom.lean`, `Lemmas/SimplifyVwOrd.lean`, ordered field). Two models:
+`Model/Simplify.lean` — `douglas_peucker`, `visvalingam` (algo/simplification.py) on the list of positions,
+`distance_to_segment`, `triangle_area`, `aire_visval` (util/geometry.py), `Operator.ARGMIN`, as the code is after ec611a5
+and 1a5eeec — and `Model/SimplifyTrack.lean` — the same two functions and the dispatcher `simplify(track, tolerance, mode)`
+on the `Track` **object**: feature rows of the observations, feature dict, `uid`/`tid`/`base`, the temporary `'@aire'`
+column, `Track.__add__` and `removeObs` of C04. T8/T9 tie the second to the first.
 
 A fix is `⟨tag, x, y⟩`; *sublist* is about fixes (tag included), i.e. about observations.
 `douglasPeucker … = some out` means "the call returns `out`"; `none` is Python's unbounded recursion.
@@ -46,7 +49,7 @@ theorem dp_total_of_self_distance (sqrt : α → α) (eps : α) (heps : (0 : α)
   dpFuel_total_gen sqrt eps heps hd0 L.length L (by omega)
 
 /-- T6: Visvalingam, for every track of ≥ 2 fixes whose triangle areas stay below ARGMIN's sentinel
-(`1e300`; also excludes NaN areas) and **every** tolerance: the result is a sub-sequence of the input
+(`big`: `float('inf')` since 68863c7, `1e300` before — i.e. areas that are finite numbers, not `inf`, not NaN) and **every** tolerance: the result is a sub-sequence of the input
 observations in their original order, it keeps the first and the last observation, and the `while` loop has
 stopped by itself within `len(track)` passes (`size ≤ 2` or the smallest area exceeds `eps²`): no
 `IndexError`, no end point removed. Any scalar type. -/
@@ -74,8 +77,8 @@ theorem dp_any_tiebreak (sqrt : α → α) (eps : α) (L out : List (Fix α))
    (dpAllFuel_ends sqrt eps L.length L out h).2⟩
 
 /-- T6', the complement of T6 (round 1's second open statement, now a theorem): on a track of ≥ 3 fixes **none** of whose
-interior fixes has an initial triangle area below ARGMIN's sentinel (`¬ area < 1e300`: areas ≥ 1e300, infinite or NaN —
-coordinates of about 1e150 and more, not an ENU frame), the first pass of the loop finds no minimum, ARGMIN answers its
+interior fixes has an initial triangle area below ARGMIN's initial minimum (`¬ area < +inf` since 68863c7: the areas are
+infinite or NaN — coordinates of about 1e154 and more, not an ENU frame), the first pass of the loop finds no minimum, ARGMIN answers its
 default index 0, the NaN stored there does not trigger the `break`, and the **first** observation is removed. Any scalar
 type, any tolerance. The harness' `wild` stream compares the code with the model on such inputs. -/
 theorem vw_sentinel_first_pass (big eps2 : α) (L : List (Fix α)) (h3 : 3 ≤ L.length)
